@@ -386,7 +386,19 @@ Section WithKdf.
       let (ex, s1) := p_exists f u s in
       match ex with
       | ExYes cur =>
-          if Bool.eqb cur admin then (ROk, s1)
+          if Bool.eqb cur admin then
+            (* nothing to rename; the repaired code (5ef5850) still flushes the base directory before it
+               acknowledges: an earlier attempt may have renamed and then failed to flush *)
+            let (e4, s4) := tick f KOpen s1 in
+            match e4 with
+            | Some _ => (RErr, s4)
+            | None =>
+                let (e5, s5) := tick f KFsync s4 in
+                match e5 with
+                | Some _ => (RErr, s5)
+                | None => (ROk, emit (EFsync LBaseDir) s5)
+                end
+            end
           else
             let oldn := u ++ ext_of cur in
             let newn := u ++ ext_of admin in
